@@ -15,6 +15,10 @@ type Document struct {
 	file    *fs.File
 	scanner *scanner
 
+	// lexErr is the error NextLexeme has returned: the scanner can't be used
+	// after it, so every later call gets the same error.
+	lexErr error
+
 	lenOnce   sync.ErrOnceWithValue[uint]
 	checkOnce sync.ErrOnce
 
@@ -64,7 +68,15 @@ func (d *Document) Clone() *Document {
 }
 
 func (d *Document) NextLexeme() (lexeme.LexEvent, error) {
-	return nextLexeme(d.scanner)
+	if d.lexErr != nil {
+		return lexeme.LexEvent{}, d.lexErr
+	}
+
+	lex, err := nextLexeme(d.scanner)
+	if err != nil && !stdErrors.Is(err, io.EOF) {
+		d.lexErr = err
+	}
+	return lex, err
 }
 
 func (d *Document) Len() (uint, error) {
